@@ -36,6 +36,7 @@ def _c06_extra(results):
 CFG = {
     "module": "Swat4.Properties.C06",
     "theorems": [
+        "Swat4.C06.facts_config_wiring",
         "Swat4.C06.udp_total",
         "Swat4.C06.udp_empty_panics",
         "Swat4.C06.udp_never_panics_checked",
